@@ -136,7 +136,12 @@ func (ci *ChunkInfo) UpdateChunkInfoSource(rootCid, sourceOverlay boson.Address,
 		if err != nil {
 			return err
 		}
-		vb, _ = bitvector.New(v)
+		vb, err = bitvector.New(v)
+		if err != nil {
+			// the file's pyramid is gone (deleted or evicted meanwhile): there
+			// is no vector to update; a nil entry would crash the next reader
+			return fmt.Errorf("chunk info : source bit vector: %w", err)
+		}
 		ci.cs.presence[rc].ChunkSource[over] = vb
 	}
 	vb.Set(v)
